@@ -145,6 +145,12 @@ void maps_matrix() {
     xenium::left_right<std::string> lr;
     lr.update([](std::string& s) { s += "x"; });
     (void)lr.read([](const std::string& s) { return s.size(); });
+    // both constructors with a class type (moves are real), a functor that returns a reference into the instance
+    xenium::left_right<std::string> lr3(std::string("a"));
+    xenium::left_right<std::string> lr4(std::string("l"), std::string("r"));
+    std::string copy = lr4.read([](const std::string& s) -> const std::string& { return s; });
+    (void)copy;
+    (void)lr3;
     xenium::left_right<int> lr2(1, 1);
     lr2.update([](int& s) { ++s; });
     (void)lr2.read([](const int& s) { return s; });
